@@ -10,7 +10,19 @@ pub extern "C" fn harness_add_comm() {
     let s1 = (&qa + &qb).unwrap(); let s2 = (&qb + &qa).unwrap();
     unsafe { verif_assert(s1.unsafe_value().to_f64().to_bits() == s2.unsafe_value().to_f64().to_bits()); }
 }
-fn main() { harness_add_comm(); harness_pipeline(); }
+#[unsafe(no_mangle)]
+pub extern "C" fn harness_cmp_sym() {
+    use numbat::{Context, module_importer::BuiltinModuleImporter, resolver::CodeSource, InterpreterResult, value::Value};
+    let mut ctx = Context::new(BuiltinModuleImporter::default());
+    let r = ctx.interpret("use units::si\nuse units::imperial\nfn __verif_sym(i: Scalar) -> Scalar", CodeSource::Internal);
+    unsafe { verif_assert(r.is_ok()); }
+    let r1 = ctx.interpret("__verif_sym(0) inch == __verif_sym(1) cm", CodeSource::Internal);
+    let r2 = ctx.interpret("__verif_sym(1) cm == __verif_sym(0) inch", CodeSource::Internal);
+    let b1 = match r1 { Ok((_, InterpreterResult::Value(Value::Boolean(b)))) => b, _ => { unsafe { verif_assert(false); } false } };
+    let b2 = match r2 { Ok((_, InterpreterResult::Value(Value::Boolean(b)))) => b, _ => { unsafe { verif_assert(false); } false } };
+    unsafe { verif_assert(b1 == b2); }
+}
+fn main() { harness_cmp_sym(); harness_add_comm(); harness_pipeline(); }
 
 #[unsafe(no_mangle)]
 pub extern "C" fn harness_pipeline() {
